@@ -39,7 +39,7 @@ def check_from_hash(cx):
     rets = [(b, i, st) for b, i, st in fn.stmts() if st['k'] == 'assign' and st['lhs']['l'] == 0 and not st['lhs']['p']]
     r = cn.c(norm(P.rvalue(rets[0][2]['rv'], rets[0][0], rets[0][1], 0))) if len(rets) == 1 else ''
     cx.add('F-HTR', 'plus-one', r.startswith('mod_n_add(') and r.endswith(', SM9_ONE)'), 'result = (Ha mod (N-1)) + 1 computed as mod_n_add(x, 1)', fn.loc())
-    cx.add('F-HTR', 'modulus', 'SM9_N_MINUS_ONE)' in r and 'SM9_U256_N_MINUS_ONE_BARRETT_MU' in r and r.startswith('mod_n_add(u256_sub('),
+    cx.add('F-HTR', 'modulus', 'SM9_N_MINUS_ONE)' in r and 'SM9_U256_N_MINUS_ONE_BARRETT_MU' in r and 'u256_sub(' in r,
            'x = low256(Ha) - q*(N-1) with q estimated through the Barrett constant of N-1', fn.loc())
     # 5 big-endian 64-bit words from offsets 0,8,..,32 -> z[4-i]
     ok = False
@@ -124,3 +124,15 @@ def run(cx):
     from .. import rules_s as S
     _run0(cx)
     S.s_siblings(cx, 'S-SIBLING', only=('mod-add', 'modn-sub', 'limb-add', 'limb-sub', 'limb-cmp', 'limb-mul'))
+
+
+_run1 = run
+
+
+def run(cx):
+    from .. import rules_s as S
+    _run1(cx)
+    S.carry_chain(cx, 'A-CARRY', ('gm_sm9::',), 2, only=('mod_n_from_hash',))
+    fn = cx.fn('gm_sm9::fields::mod_n_from_hash', 'I-BARRETT')
+    if fn is not None:
+        S.barrett(cx, 'I-BARRETT', fn, cx.F)
